@@ -18,12 +18,12 @@ OPTION_WORDS = ("Model", "Interface", "delay", "volume", "stochastic", "safe", "
 
 
 def lattice(thorough):
-    vols = VOLUME + (["dividing_object"] if thorough else [])
+    vols = VOLUME + ["dividing_object"]
     return [dict(stochastic=a, delay=b, safe=c, volume=d, return_dataframe=e, source=f)
             for a, b, c, d, e, f in itertools.product(STOCH, DELAY, SAFE, vols, DF, SOURCE)]
 
 
-def _apply_rules_ref(sp, state, t=0.0):
+def _apply_rules_ref(sp, state, t=0.0, vol=1.0):
     """Repeated assignment / additive rules in declaration order."""
     st_ = dict(state)
     params = dict(sp["params"])
@@ -32,7 +32,7 @@ def _apply_rules_ref(sp, state, t=0.0):
             continue
         env = dict(params)
         env.update(st_)
-        v = ref.eval_tree(rl["tree"], env, t, 1.0)
+        v = ref.eval_tree(rl["tree"], env, t, vol)
         if rl["dest"] in st_:
             st_[rl["dest"]] = v
         else:
@@ -155,7 +155,8 @@ def check(case):
         if volcol.shape[0] != nrows or not np.all(volcol > 0):
             res.fail(("volume_column", feat), options=opt, got=[float(x) for x in volcol[:6]])
             return res
-    exp0 = _apply_rules_ref(sp, sp["x0"])
+    vol0 = {"off": 1.0, "flag": 1.0, "object": 1.5, "dividing_object": 1.5}.get(vol, vol if not isinstance(vol, str) else 1.0)
+    exp0 = _apply_rules_ref(sp, sp["x0"], t=float(tp[0]), vol=float(vol0) if volume_used else 1.0)
     for i, s in enumerate(species_order):
         if abs(data[0, i] - exp0[s]) > 1e-9 * (1 + abs(exp0[s])):
             res.fail(("first_row", feat), options=opt, species=s, got=float(data[0, i]), expected=exp0[s],
@@ -204,6 +205,11 @@ def models(draw, flags=None):
     if with_rule:
         srcs = draw(st.lists(st.sampled_from(dyn), min_size=1, max_size=2, unique=True))
         tree = ["add"] + [gen.sym(s) for s in srcs] + [gen.num(draw(st.sampled_from([0.0, 1.0, 2.5])))]
+        extra = draw(st.sampled_from(["none", "time", "volume", "both"]))
+        if extra in ("time", "both"):          # the rule also reads the time ...
+            tree.append(["mul", gen.num(2.0), ["add", ["t"], gen.num(1.5)]])
+        if extra in ("volume", "both"):        # ... and the volume (1 where no volume is in play)
+            tree.append(["mul", gen.num(3.0), ["vol"]])
         b.rules.append({"type": "assignment", "eq": f"{tot} = {ref.show(tree)}", "freq": "repeated", "tree": tree,
                         "dest": tot})
     sp = b.spec(x0)
